@@ -32,6 +32,19 @@ fn main() {
                 2
             }
         }
+    } else if args.get(3).map(|s| s.as_str()) == Some("--range") {
+        let tier = args[2].as_str();
+        let n = |i: usize| args.get(i).and_then(|s| s.parse::<u64>().ok()).expect("--range <family> <lo> <hi>");
+        match props::build(id, tier) {
+            Some(c) => engine::run_range(&c, n(4) as usize, n(5), n(6)),
+            None => 2,
+        }
+    } else if args.get(3).map(|s| s.as_str()) == Some("--find-abort") {
+        let tier = args[2].as_str();
+        match props::build(id, tier) {
+            Some(c) => engine::find_abort(c, tier),
+            None => 2,
+        }
     } else {
         let tier = args[2].as_str();
         match props::build(id, tier) {
